@@ -17,14 +17,23 @@ CONFIG = {
                   "PROOF RELATIVE TO the std contract H1-H4 (Display prints finite values as -?[0-9]+(.[0-9]+)? and parses them back "
                   "bit-exactly; inf/-inf/NaN spellings): finite values valid (regex inclusion in L(xsd:double)) and round trip; "
                   "non-finite values: valid IFF lexical_form special-cases them with XSD spellings, REFUTED for the unrepaired shape "
-                  "(\"inf\" not in L(xsd:double)). H1-H4 and the model are re-validated against the real implementation on every "
+                  "(\"inf\" not in L(xsd:double)); both are instantiated on the shape regenerated from the CURRENT tree "
+                  "(f64_shape_valid, f64_nonfinite_valid, f64_all_values: every bit pattern < 2^64 is a valid xsd:double literal "
+                  "and converts back to itself, NaN to a NaN), so a regression of lexical_form fails a proof obligation. "
+                  "no_panic with the unwrap made explicit: try_from_term over ANY Term implementation (View) unwinds iff the "
+                  "implementation answers lexical_form() but not datatype(); never on a well-formed term (all five types). "
+                  "f64 <- arbitrary literal, over the executable model of f64::from_str the driver runs: success iff literal of "
+                  "a whitelisted datatype whose lexical form parses; on L(xsd:double) the result is the value the XSD mapping "
+                  "gives PROVIDED the exponent is below 655360 (f64_parse_denotes_partial; the bound is sharp: finding "
+                  "C20-f64-exponent-clamp). H1-H4 and the model are re-validated against the real implementation on every "
                   "run (differential, not proof).",
     "level_note": "Trusted: hand transcription of the XSD 1.1 lexical spaces and of core's integer Display/FromStr and "
                   "bool::from_str; core's float formatting/parsing only through H1-H4 (checked per run on an edge table + random "
                   "doubles, 60k quick / 1M thorough, and per generated f64 by an independent exact-rational decimal->binary64 "
                   "conversion in Lean); native_decide only for two auxiliary regex obligations (a cross-check of the hand-proved inclusion, and disjointness from the special values) - no property theorem depends on it; isize/usize = 64 bit "
-                  "(harness reports the real MIN/MAX each run). Known findings: f64 +-inf printed as inf/-inf; str containing "
-                  "U+0000/U+FFFE/U+FFFF is outside L(xsd:string). Observations (lenient input handling, not counted): success on "
+                  "(harness reports the real MIN/MAX each run). Known findings: str containing "
+                  "U+0000/U+FFFE/U+FFFF is outside L(xsd:string); f64::try_from_term misreads exponents >= 655360 (core's "
+                  "dec2flt drops exponent digits): \"0.<655359 zeros>1e655360\" -> Ok(0.0) instead of 1. Observations (lenient input handling, not counted): success on "
                   "ill-typed literals (\"-5\"^^xsd:positiveInteger -> Ok(-5); \"INF\"^^xsd:decimal, \"infinity\"^^xsd:double -> "
                   "Ok(inf)); \"1\"^^xsd:boolean and \"-0\"^^xsd:nonNegativeInteger -> usize are refused (errors are allowed).",
     "tables": ["native"],
@@ -40,10 +49,22 @@ CONFIG = {
         "f64_finite_valid", "f64_roundtrip", "std_display_nonfinite_invalid", "f64_nonfinite_refuted_of_display",
         "f64_nonfinite_valid_iff", "f64_nonfinite_valid_of_special", "f64_nonfinite_roundtrip", "f64_shape_known",
         "toy_std",
+        "view_panic_iff", "view_of_term", "no_panic_any_term",
+        "f64_shape_valid", "f64_nonfinite_valid", "f64_all_values",
+        "try_ok_iff", "f64_try_ok_iff", "expClamped_exact_below_limit", "expClamped_limit_witness",
+        "f64_parse_ok_lexical", "f64_parse_denotes_partial",
     ],
     "native_ok": ["rustFiniteDisplay_incl_double_decided", "rustFiniteDisplay_disj_special"],
     "trivial_re": r"^(member=|ok=0 )",
-    "rule": "edge table (type extremes +-1, powers of ten +-1, 0, -0.0, subnormals, every 7th power of two and 5th power of ten "
+    "rule": "every native value goes through 13 representations (self, try_into_term, CmpTerm, borrow_term, SimpleTerm "
+            "from_term/into_term, ArcTerm, RcTerm, GenericLiteral, rio Trusted<Literal>, N-Triples, Turtle, pretty Turtle) and "
+            "every arbitrary term through up to 9; only the VALUE must survive (lexical drift of copies is a model-compared "
+            "field, of serialisations informative); NaNs with both signs, quiet/signalling, random payloads and the NaNs "
+            "run-time arithmetic yields; integer forms per magnitude class (fits i32 / isize only / usize only / beyond 64 "
+            "bit / aliases of small numbers modulo 2^32 and 2^64); double forms with extreme and zero-padded exponents incl. "
+            "`bigf` forms of up to 655k characters; 18 more near-miss datatype IRIs (case, percent-encoding, port, relative); "
+            "`foreign`: a harness-local Term impl for every combination of lexical_form()/datatype() x 5 kinds x 5 types; "
+            "edge table (type extremes +-1, powers of ten +-1, 0, -0.0, subnormals, every 7th power of two and 5th power of ten "
             "with both neighbours, +-inf, NaNs incl. signalling/negative payloads, 17-significant-digit values, 1e21, 1e-7, 5e-324, "
             "f64::MAX) + structured random values of each native type (uniform bits / uniform exponent / subnormal / integral / "
             "short decimal / near powers of ten); every native value is observed as itself, as SimpleTerm, as ArcTerm and after an "
@@ -59,13 +80,16 @@ CONFIG = {
         "core::fmt Display for integers, core::num from_str_radix, bool::from_str: hand transcription (differential per run)",
         "core float Display/FromStr: assumed via H1-H4 (StdF64), validated per run; RustF64.parse syntax model + exact decimal->binary64 "
         "(Dec.nearest) used only by the differential",
+        "core::num::dec2flt exponent reader (bounded accumulator that drops digits): hand transcription RustF64.expClamped, "
+        "validated per run by the `bigf` requests on both sides of the limit 655360",
         "tools/extractors/c20.py (fail-closed shape matcher; its tables are cross-checked behaviourally by the `wl` and `h3` requests)",
     ],
     "assumptions": [
         "H1: finite f64 Display matches -?[0-9]+(\\.[0-9]+)? ; H2: parse(Display(x)) == x bitwise; H3: non-finite print inf/-inf/NaN; "
         "H4: inf/INF/-inf/-INF/NaN parse to the special values (all four re-checked on every run)",
         "isize/usize are 64 bit on the target",
-        "third-party Term impls return Some(datatype) whenever lexical_form() is Some (the unwrap in try_from_term)",
+        "third-party Term impls return Some(datatype) whenever lexical_form() is Some (the unwrap in try_from_term): now "
+        "explicit in the model (Outcome.panic, view_panic_iff) and exercised by the `foreign` requests",
         "xsd:float literals are read to the nearest double of the decimal (no intermediate rounding to binary32)",
     ],
     "exec_timeout": 900,
@@ -104,3 +128,44 @@ def c20_str_non_xml_char(failure):
     I = kv(failure["impl"])
     return I.get("lex") == t[1] and I.get("back") == t[1] and I.get("dt") == (XSD + "string").encode().hex() \
         and not any(k.startswith("FAIL.") for k in I)
+
+
+def _lex_of_request(t):
+    """(type, lexical form, datatype IRI) of a `parse <ty> l <lex> <dt>` or `bigf ...` request, else None"""
+    if len(t) == 5 and t[0] == "parse" and t[2] == "l":
+        return t[1], unhex(t[3]), unhex(t[4])
+    if len(t) == 8 and t[0] == "bigf":
+        try:
+            z1, z2 = int(t[4]), int(t[6])
+        except ValueError:
+            return None
+        return t[1], unhex(t[3]) + "0" * z1 + unhex(t[5]) + "0" * z2 + unhex(t[7]), XSD + t[2]
+    return None
+
+
+@predicate
+def c20_f64_exponent_clamp(failure):
+    """f64 <- literal of an accepted datatype whose lexical form is a numeric xsd:double form with an exponent of
+    655360 or more that core's dec2flt misreads (its accumulator stops at the first value >= 0x10000 and DROPS the
+    remaining digits): the implementation succeeds with the value of the misread exponent; the model (which
+    transcribes the accumulator) predicts exactly that value, the exact oracle another one.  Nothing else may be
+    wrong: no FAIL field, all representations agree."""
+    import re
+    r = _lex_of_request(_req(failure))
+    if not r or r[0] != "f64" or failure.get("field") != "val":
+        return False
+    _, lex, dt = r
+    if dt not in (XSD + "double", XSD + "float", XSD + "decimal"):
+        return False
+    m = re.fullmatch(r"[+-]?(?:[0-9]+(?:\.[0-9]*)?|\.[0-9]+)[eE][+-]?([0-9]+)", lex)
+    if not m:
+        return False
+    e = 0
+    for c in m.group(1):
+        if e < 0x10000:
+            e = e * 10 + int(c)
+    if e == int(m.group(1)) or int(m.group(1)) < 655360:
+        return False
+    I, M = kv(failure["impl"]), kv(failure["model"])
+    return (I.get("ok") == "1" and M.get("ok") == "1" and "val" in I and M.get("val") == I["val"]
+            and M.get("o.val") not in (None, I["val"]) and not any(k.startswith("FAIL.") for k in I))
